@@ -560,10 +560,10 @@ def _one_wallet_many_threads(rng, tier, rpt):
                     "impl_output": got, "model_output": want, "no_failing_input": False})
 
     n_threads = 5
-    per_thread = 150 if tier == "quick" else 2000
+    per_thread = 150 if tier == "quick" else 1000
     kinds = ["ElectrumV1 (private)", "ElectrumV1 (public-only)", "ElectrumV2Standard", "ElectrumV2Segwit"]
     if tier != "quick":
-        kinds = kinds * 4
+        kinds = kinds * 3
     n_obs = 0
     old = sys.getswitchinterval()
     for rnd, kind in enumerate(kinds):
